@@ -29,6 +29,7 @@ class Sched:
         self.last = None
         self.steps = 0
         self.handles = []
+        self.stalls = []                    # (thread whose timed wait expired, thread it kept blocked on a lock it holds)
     # ---- called by managed threads
     def name(self):
         return getattr(self.tls, 'name', None)
@@ -115,6 +116,10 @@ class Sched:
             t['why'] = why
             if why == 'timeout':
                 self.clock += 1
+                for n2, t2 in self.threads.items():
+                    lk = t2.get('waiting_lock')
+                    if n2 != n and not t2['done'] and lk is not None and lk.owner == n:
+                        self.stalls.append((n, n2))
             self.last = n
             self.steps += 1
             t['sem'].release()
@@ -134,7 +139,10 @@ class SLock:
     def __init__(self):
         self.owner = None; self.S = S
     def acquire(self, blocking=True, timeout=-1):
+        me = self.S.name()
+        if me is not None and me in self.S.threads: self.S.threads[me]['waiting_lock'] = self
         self.S.point('acq', enabled=lambda: self.owner is None)
+        if me is not None and me in self.S.threads: self.S.threads[me]['waiting_lock'] = None
         self.owner = self.S.name() or 'main'
         return True
     def release(self):
